@@ -96,6 +96,7 @@ type node struct {
 	ldg     *ledger.Ledger
 	exec    *executor.BlockExecutor
 	viewEx  *executor.BlockExecutor
+	viewLdg *ledger.Ledger
 	price   int64
 	nonces  map[string]uint64
 }
@@ -146,6 +147,7 @@ func openNode(dir string, cfg *repo.Config, price int64) (*node, error) {
 	if n.viewEx, err = executor.New(viewLdg, quietLogger, &appchain.Client{}, cfg, big.NewInt(0)); err != nil {
 		return nil, err
 	}
+	n.viewLdg = viewLdg
 	return n, nil
 }
 
